@@ -495,6 +495,11 @@ func (v *Vue) evalFilter(ctx VueContext, seg pipeSegment, input any, isFirst, fr
 
 	result, err := v.callFunc(&ctx, fn, args...)
 	if err != nil {
+		if isFirst && !strings.Contains(seg.expr, "(") {
+			// a lone word at the head that happens to be a registered name (title, type, default):
+			// it may be the variable of that name, which a caller tries next
+			return nil, fmt.Errorf("%s(): %w", seg.name, err)
+		}
 		return nil, &funcCallError{name: seg.name, err: err}
 	}
 	return result, nil
